@@ -13,8 +13,8 @@ Definition w_tok : str := [51; 102; 55; 56; 54; 56; 53; 48; 101; 51; 56; 55; 53;
 Definition w_now : str := [49; 55; 48; 48; 48; 48; 48; 48; 48; 48].
 Definition w_old : bytes := [79; 76; 68; 45; 49; 32; 79; 76; 68; 45; 50; 32].
 Definition w_ws : list bytes := [[78; 69; 87; 45; 49; 32]; [78; 69; 87; 45; 50; 32]; [78; 69; 87; 45; 51; 32]].
-Definition w_cfg_x : config := Cfg (Some [116; 109; 112]) true None true true.
-Definition w_cfg_s : config := Cfg (Some [116; 109; 112]) false (Some [98; 97; 99; 107; 117; 112]) true false.
+Definition w_cfg_x : config := Cfg (Some [116; 109; 112]) true None true true None.
+Definition w_cfg_s : config := Cfg (Some [116; 109; 112]) false (Some [98; 97; 99; 107; 117; 112]) true false None.
 Definition w_f0 : fs := fun q => if seq_eqb q w_fn then Some w_old else None.
 
 (* the state after the first 8 effects (create temp, 3 writes, close, touch,
@@ -25,20 +25,38 @@ Lemma refute_target :
 Proof. vm_compute. reflexivity. Qed.
 
 Lemma atomic_refuted :
-  token_ok w_tok = true /\ digits_ok w_now = true /\ same_fs w_cfg_x = false /\
-  ~ atomic_outcome (w_f0 w_fn) (concat w_ws)
-      (apply (firstn 8 (effects w_cfg_x w_fn w_tok w_now 6 w_f0 (save_ops w_ws))) w_f0 w_fn).
+  token_ok w_tok = true /\ digits_ok w_now = true /\ link_ok w_cfg_x w_fn w_tok w_now w_f0 /\
+  same_fs w_cfg_x = false /\
+  ~ atomic_outcome (rd w_cfg_x w_fn w_f0) (concat w_ws)
+      (rd w_cfg_x w_fn (apply (firstn 8 (effects w_cfg_x w_fn w_tok w_now 6 w_f0 (save_ops w_ws))) w_f0)).
 Proof.
   split; [vm_compute; reflexivity|]. split; [vm_compute; reflexivity|].
-  split; [vm_compute; reflexivity|].
+  split; [exact Logic.I|]. split; [vm_compute; reflexivity|].
+  change (rd w_cfg_x w_fn) with (fun f : fs => f w_fn). cbv beta.
   rewrite refute_target. intros [H|[H|[H _]]]; vm_compute in H; discriminate.
 Qed.
+
+(* a symlinked target: conf/raw.db -> store/raw.db, same file system *)
+Definition w_q : path := [115; 116; 111; 114; 101; 47; 114; 97; 119; 46; 100; 98].
+Definition w_cfg_l : config := Cfg None false None true true (Some w_q).
+Definition w_f0_l : fs := fun p => if seq_eqb p w_q then Some w_old else None.
+Example ex_link_ok : link_ok w_cfg_l w_fn w_tok w_now w_f0_l /\ same_fs w_cfg_l = true
+                     /\ rd w_cfg_l w_fn w_f0_l = Some w_old.
+Proof.
+  split; [|split; vm_compute; reflexivity].
+  unfold link_ok. cbn [c_link w_cfg_l]. repeat split; vm_compute; discriminate || reflexivity.
+Qed.
+(* the clean commit replaces the LINK by the new file; the old file behind it is left as it was *)
+Example ex_link_save :
+  let f := apply (effects w_cfg_l w_fn w_tok w_now 0 w_f0_l (save_ops w_ws)) w_f0_l in
+  rd w_cfg_l w_fn f = Some (concat w_ws) /\ f w_fn = Some (concat w_ws) /\ f w_q = Some w_old.
+Proof. vm_compute. repeat split; reflexivity. Qed.
 
 (* non-vacuity of the hypotheses used in Props.v *)
 Example ex_token : token_ok w_tok = true.            Proof. vm_compute. reflexivity. Qed.
 Example ex_now : digits_ok w_now = true.              Proof. vm_compute. reflexivity. Qed.
 Example ex_same_fs : same_fs w_cfg_s = true.          Proof. vm_compute. reflexivity. Qed.
-Example ex_same_fs_default : same_fs (Cfg None true None true true) = true.
+Example ex_same_fs_default : same_fs (Cfg None true None true true None) = true.
 Proof. vm_compute. reflexivity. Qed.
 (* a same-fs save with a backup really renames: the final target is the new content *)
 Example ex_save :
